@@ -49,6 +49,17 @@ impl Rng {
     }
 }
 
+/// Which cases ship the facts the Lean model can *compute* itself (`f64::from_str` via Model/DecFloat.lean,
+/// chrono's `%Y-%m-%d %H:%M:%S` parse via `Lit.parseTimestampLit`, the JSON document of a line via Model/JsonDoc.lean)?
+/// Every second one (a counter: generation is deterministic, and a case line carries the facts it was given, so a
+/// replay is the line itself): where the facts are shipped the driver cross-checks them against the computed
+/// answer (`fact-mismatch`), where they are not the model runs on the computed answer alone — both paths are
+/// exercised in every run.
+pub fn ship_facts(_key: &str) -> bool {
+    static COUNTER: std::sync::atomic::AtomicU64 = std::sync::atomic::AtomicU64::new(0);
+    COUNTER.fetch_add(1, std::sync::atomic::Ordering::Relaxed) % 2 == 0
+}
+
 pub fn hex(bytes: &[u8]) -> String {
     let mut s = String::with_capacity(bytes.len() * 2 + 1);
     s.push('x');
